@@ -175,6 +175,7 @@ def run_kani_units(kani_cfgs, wr, work, tier):
         unreachable = 0
         safety_total = safety_ok = 0
         covers_sat = covers_dead = 0
+        cover_status = {}
         safety_fail = []
         for c in hr['checks']:
             d = c['desc']
@@ -189,16 +190,9 @@ def run_kani_units(kani_cfgs, wr, work, tier):
                     res['failed'].setdefault(n, []).append('%s: FAILURE (harness %s)' % (c['loc'], h))
                 named_in_h.setdefault(h, set()).add(n)
             elif d.startswith('COVER '):
-                if c['status'] == 'UNREACHABLE':
-                    # cover in a branch that is dead for this (const-generic) instantiation of the harness
-                    covers_dead += 1
-                    continue
-                res['covers']['total'] += 1
-                if c['status'] == 'SATISFIED':
-                    res['covers']['satisfied'] += 1
-                    covers_sat += 1
-                else:
-                    res['undecided'].append('vacuity: cover "%s" in %s is %s' % (d, h, c['status']))
+                # the same cover can occur once per (const-generic) instantiation inside one harness: it is
+                # satisfied if any instance is, dead if every instance sits in a dead branch
+                cover_status.setdefault(d, []).append(c['status'])
             else:
                 if c['status'] == 'UNREACHABLE':
                     unreachable += 1
@@ -210,6 +204,16 @@ def run_kani_units(kani_cfgs, wr, work, tier):
                     safety_fail.append('%s @ %s' % (d, c['loc']))
                 else:
                     res['undecided'].append('%s: check "%s" is %s' % (h, d, c['status']))
+        for d, sts in cover_status.items():
+            if all(x == 'UNREACHABLE' for x in sts):
+                covers_dead += 1
+                continue
+            res['covers']['total'] += 1
+            if 'SATISFIED' in sts:
+                res['covers']['satisfied'] += 1
+                covers_sat += 1
+            else:
+                res['undecided'].append('vacuity: cover "%s" in %s is %s' % (d, h, sorted(set(sts))))
         if covers_sat == 0 and hr['status'] == 'SUCCESSFUL':
             res['undecided'].append('vacuity: harness %s has no satisfied cover' % h)
         sname = '%s/%s/safety' % (info['unit'], h)
